@@ -90,7 +90,23 @@ func evalRead(s *Stores, tx *bbolt.Tx, op Op) (string, error) {
 	return "", fmt.Errorf("unknown read %s", op.K)
 }
 
-// queryText: the three pinned query shapes.
+// extOdd / extTail: the application-supplied functions behind the external symbols `oddId` and `idTail` of people.
+func extOdd(id string) bool {
+	if id == "" {
+		return false
+	}
+	return id[len(id)-1]%2 == 1
+}
+
+func extTail(id string) *string {
+	if id == "" {
+		return nil
+	}
+	t := id[len(id)-1:]
+	return &t
+}
+
+// queryText: the pinned query shapes.
 func queryText(op Op) string {
 	switch op.N {
 	case 1:
@@ -101,6 +117,10 @@ func queryText(op Op) string {
 		return fmt.Sprintf(`anyOf(mentees.name) = "%s"`, op.Name)
 	case 4:
 		return fmt.Sprintf(`dept.name = "%s"`, op.Name)
+	case 7:
+		return fmt.Sprintf(`oddId = %s`, op.Name) // application-supplied bool symbol (NewBoolFuncSymbol)
+	case 8:
+		return fmt.Sprintf(`idTail = "%s" and oddId = %v`, op.Name, extOdd("x"+op.Name)) // + NewStringFuncSymbol
 	}
 	return ""
 }
@@ -250,6 +270,14 @@ func modelRead(m *Model, op Op) string {
 				}
 			}
 			return fmt.Sprintf("%s#%d", strings.Join(ids, ","), len(ids))
+		case 7, 8:
+			var ids []string
+			for _, id := range listed {
+				if (op.N == 7 && extOdd(id) == (op.Name == "true")) || (op.N == 8 && strOr(extTail(id)) == op.Name && id != "") {
+					ids = append(ids, id)
+				}
+			}
+			return fmt.Sprintf("%s#%d", strings.Join(ids, ","), len(ids))
 		case 5:
 			var ids []string
 			for _, id := range listed {
@@ -371,8 +399,12 @@ func (g *gen) genReads(n int) []Op {
 	if g.cfg.Profile == "conc" && g.r.IntN(4) == 0 {
 		// a herd: the byte-identical query on the same store, over and over, by every reader that draws this script
 		// (readers that began on different committed states then evaluate the same text at the same moment)
+		herd := Op{K: "query", S: StPeople, N: 0}
+		if g.r.IntN(2) == 0 {
+			herd = Op{K: "query", S: StPeople, N: 7, Name: pick(g.r, []string{"true", "false"})}
+		}
 		for i := 0; i < n+2; i++ {
-			ops = append(ops, Op{K: "query", S: StPeople, N: 0})
+			ops = append(ops, herd)
 		}
 		return ops
 	}
@@ -418,7 +450,10 @@ func (g *gen) genReads(n int) []Op {
 			if g.cfg.Profile == "conc" {
 				// plus two composite-symbol shapes the existing suite pins (linked set . field, fk . field): every
 				// evaluation builds the symbol chain anew, which is where shared evaluation state would show
-				op.N = g.r.IntN(7) // 5, 6: the run's shared pre-parsed queries
+				op.N = g.r.IntN(9) // 5, 6: the run's shared pre-parsed queries; 7, 8: application-supplied symbols
+			}
+			if op.N == 7 || op.N == 8 {
+				op.S = StPeople
 			}
 			switch op.N {
 			case 1, 3:
@@ -427,6 +462,11 @@ func (g *gen) genReads(n int) []Op {
 				op.Name = pick(g.r, U.Roles)
 			case 4:
 				op.Name = pick(g.r, U.DeptNames)
+			case 7:
+				op.Name = pick(g.r, []string{"true", "false"})
+			case 8:
+				id := pick(g.r, U.People[:len(U.People)-nHostilePeople]) // the hostile ids end in characters a query text cannot carry
+				op.Name = strOr(extTail(id))
 			}
 		case 8:
 			op = Op{K: "iterate", S: pick(g.r, []string{StPeople, StStaff, StPX})}
